@@ -125,36 +125,45 @@ pub struct Case {
     pub rows: u32, // number of pixel rows supplied
     pub plane2: bool,
     pub salt: u64,
+    /// public call made on the same driver immediately before the write under test (no reset in between)
+    pub pred: Option<Op12>,
 }
 
 pub fn pixels(rb: usize, rows: usize, salt: u64) -> Vec<u8> {
     (0..rb * rows).map(|i| (mix64(((i as u64) << 16) ^ salt) >> 13) as u8).collect()
 }
 
-pub fn check_write(c: &Case, rep: &mut Report) {
-    rep.eval("epd12in48b_v2");
+type Fails = Vec<(String, Vec<String>, String)>;
+
+fn op_of(c: &Case, p: &[u8]) -> Op12 {
+    match (c.win, c.plane2) {
+        (None, false) => Op12::Write1(p.to_vec()),
+        (None, true) => Op12::Write2(p.to_vec()),
+        (Some(w), false) => Op12::Write1Partial(w, p.to_vec()),
+        (Some(w), true) => Op12::Write2Partial(w, p.to_vec()),
+    }
+}
+
+/// run the write of `c` on a ready driver (after `pred` if given) and judge everything the last call did
+fn eval_write(c: &Case, pred: Option<&Op12>, rep: &mut Report) -> Result<Fails, String> {
     let w = c.win.unwrap_or((0, 0, W, H));
     let rb = (w.2 / 8) as usize;
     let p = pixels(rb, c.rows as usize, c.salt);
-    let op = match (c.win, c.plane2) {
-        (None, false) => Op12::Write1(p.clone()),
-        (None, true) => Op12::Write2(p.clone()),
-        (Some(w), false) => Op12::Write1Partial(w, p.clone()),
-        (Some(w), true) => Op12::Write2Partial(w, p.clone()),
-    };
+    let op = op_of(c, &p);
     let mut rig = Rig12::ready();
+    if let Some(pr) = pred {
+        let o = rig.apply(pr);
+        if !o.is_ok() {
+            return Err(format!("predecessor {} returned {}", pr.name(), o.short()));
+        }
+    }
     let o = rig.apply(&op);
-    let case = J::obj().set("panel", "epd12in48b_v2").set("op", op.to_json()).set("pixel_rows", c.rows);
-    let entry = op.name().to_string();
-    let mk = |class: &str, tags: Vec<String>, detail: String| Failure { panel: "epd12in48b_v2".into(), entry: entry.clone(), class: class.into(), tags, detail: format!("window {:?}, {} pixel rows: {}", w, c.rows, detail), case: case.clone() };
-    rep.nontrivial(hash_str(&format!("{:?}|{}|{}", c.win, c.rows, c.plane2)));
     if !o.is_ok() {
-        rep.fail(mk("panic", vec![], format!("call returned {}", o.short())));
-        return;
+        return Err(format!("call returned {}", o.short()));
     }
     let dtm = if c.plane2 { 0x13 } else { 0x10 };
     let exp = expected_data(w, &p);
-    let mut fails: Vec<(String, Vec<String>, String)> = Vec::new();
+    let mut fails: Fails = Vec::new();
     for chip in 0..4 {
         let cmds = cmds_of_op(&rig, chip);
         let data: Vec<&CmdRec> = cmds.iter().filter(|c| c.op == 0x10 || c.op == 0x13).collect();
@@ -211,11 +220,53 @@ pub fn check_write(c: &Case, rep: &mut Report) {
     }
     check_pins(&rig, &mut fails);
     rep.count("spi_transfers", rig.board.borrow().spi_writes);
-    if fails.is_empty() && rep.samples.len() < 10 {
-        rep.sample(case.clone().set("chips_with_data", exp.iter().filter(|e| e.is_some()).count()));
+    Ok(fails)
+}
+
+pub fn check_write(c: &Case, rep: &mut Report) {
+    rep.eval("epd12in48b_v2");
+    let w = c.win.unwrap_or((0, 0, W, H));
+    let rb = (w.2 / 8) as usize;
+    let op = op_of(c, &pixels(rb, c.rows as usize, c.salt));
+    let mut case = J::obj().set("panel", "epd12in48b_v2").set("op", op.to_json()).set("pixel_rows", c.rows);
+    if let Some(p) = &c.pred {
+        case = case.set("after", p.to_json());
     }
-    for (class, tags, detail) in fails {
-        rep.fail(mk(&class, tags, detail));
+    let entry = op.name().to_string();
+    let ctx_txt = c.pred.as_ref().map(|p| format!(" (directly after {})", p.name())).unwrap_or_default();
+    let mk = |class: &str, tags: Vec<String>, detail: String| Failure { panel: "epd12in48b_v2".into(), entry: entry.clone(), class: class.into(), tags, detail: format!("window {:?}, {} pixel rows{}: {}", w, c.rows, ctx_txt, detail), case: case.clone() };
+    rep.nontrivial(hash_str(&format!("{:?}|{}|{}|{:?}", c.win, c.rows, c.plane2, c.pred.as_ref().map(|p| p.to_json().to_string()))));
+    let fails = match eval_write(c, c.pred.as_ref(), rep) {
+        Ok(f) => f,
+        Err(e) => {
+            rep.fail(mk("panic", c.pred.as_ref().map(|p| vec![format!("after:{}", p.name())]).unwrap_or_default(), e));
+            return;
+        }
+    };
+    if fails.is_empty() && rep.samples.len() < 10 {
+        rep.sample(case.clone());
+    }
+    if fails.is_empty() {
+        return;
+    }
+    match &c.pred {
+        None => {
+            for (class, tags, detail) in fails {
+                rep.fail(mk(&class, tags, detail));
+            }
+        }
+        Some(p) => {
+            // report only what the same write on a fresh driver does not already show
+            rep.count("context_cases_failing", 1);
+            let fresh = eval_write(c, None, &mut Report::new()).unwrap_or_default();
+            for (class, mut tags, detail) in fails {
+                if fresh.iter().any(|(fc, ft, _)| *fc == class && *ft == tags) {
+                    continue;
+                }
+                tags.push(format!("after:{}", p.name()));
+                rep.fail(mk(&class, tags, detail));
+            }
+        }
     }
 }
 
@@ -427,13 +478,50 @@ pub fn run(ctx: &Ctx) -> Report {
                 rows.push(3);
             }
             for r in rows {
-                cases.push(Case { win: Some(*w), rows: r, plane2, salt: i as u64 * 7 + r as u64 });
+                cases.push(Case { win: Some(*w), rows: r, plane2, salt: i as u64 * 7 + r as u64, pred: None });
             }
         }
     }
     for plane2 in [false, true] {
         for rows in [984u32, 1, 3, 492] {
-            cases.push(Case { win: None, rows, plane2, salt: 0xF00 + rows as u64 });
+            cases.push(Case { win: None, rows, plane2, salt: 0xF00 + rows as u64, pred: None });
+        }
+    }
+    // the same writes directly after another public call on the same driver (no reset in between):
+    // the driver caches its control word, so what a call does may depend on how the previous one ended
+    let preds = |w: R4| -> Vec<Op12> {
+        vec![
+            Op12::Write1Partial(w, pixels((w.2 / 8) as usize, 1, 77)),
+            Op12::Write2Partial(w, pixels((w.2 / 8) as usize, 1, 78)),
+            Op12::Write1Partial((8, 8, 64, 4), vec![0xA5; 32]),
+            Op12::Write2Partial((1232, 976, 72, 8), vec![0x5A; 72]),
+            Op12::Write1(pixels((W / 8) as usize, 1, 79)),
+            Op12::Write2(pixels((W / 8) as usize, 2, 80)),
+            Op12::Refresh,
+            Op12::RefreshPartial(w),
+            Op12::BeginRefresh,
+            Op12::SetMode(9),
+            Op12::SetLut(0x22, vec![7; 11]),
+            Op12::PowerOff,
+            Op12::GetStatus,
+        ]
+    };
+    let base: Vec<Case> = cases.clone();
+    let np = preds((0, 0, 8, 1)).len();
+    for (i, c) in base.iter().enumerate() {
+        let w = c.win.unwrap_or((0, 0, W, H));
+        let ps = preds(w);
+        if ctx.tier_thorough {
+            // every predecessor for a third of the cases, a rotating one for the rest
+            if i % 3 == 0 {
+                for p in ps {
+                    cases.push(Case { pred: Some(p), ..c.clone() });
+                }
+            } else {
+                cases.push(Case { pred: Some(ps[i % np].clone()), ..c.clone() });
+            }
+        } else if i % 2 == 0 {
+            cases.push(Case { pred: Some(ps[(i / 2) % np].clone()), ..c.clone() });
         }
     }
     let mut rep = par_run(&cases, ctx.threads, |_, c, rep| check_write(c, rep));
